@@ -29,7 +29,9 @@
 //        object (ASan variant sees any over/under-read), or in a mapping that ends / starts at a PROT_NONE page
 //   pguard <none|slicea|slicew>   blocks of the persistent iterator are handed over as such slices (takes effect at piter)
 // Arguments of the entry points (C13 part 6): every entry point with non-default, distinguishable flags and timeout
-//   ft <rmem|rfile|rfd|rblocks|smem|sfile|sfd|sblocks> <flags> <timeout> <hex>
+//   ft <rmem|rfile|rfd|rblocks|smem|sfile|sfd|sblocks> <flags> <timeout> <hex> [nocb]
+//        nocb: no callback (rules-level: NULL passed; scanner-level: yr_scanner_set_callback(NULL), restored afterwards);
+//        the callback script set by `script` applies as in every scan
 //        rules-level: both passed to yr_rules_scan_*; scanner-level: yr_scanner_set_flags / yr_scanner_set_timeout first;
 //        *blocks: the bytes as the single block of a fresh position-keeping iterator with a file_size function
 // Iterator semantics ("position keeping"): the iterator remembers the index of the last block it delivered
@@ -316,6 +318,8 @@ static void ft_cmd(HS* s, char* p)
   int timeout = atoi(tok(&p));
   size_t len;
   uint8_t* b = h_unhex(tok(&p), &len);
+  int nocb = !strcmp(tok(&p), "nocb");
+  YR_CALLBACK_FUNC cb = nocb ? NULL : scan_cb;
   char path[64] = "";
   int fd = -1, rc = -1;
   int is_file = !strcmp(e + 1, "file"), is_fd = !strcmp(e + 1, "fd"), is_blocks = !strcmp(e + 1, "blocks");
@@ -331,17 +335,19 @@ static void ft_cmd(HS* s, char* p)
     for (int i = 0; i < 64; i++) { free(P.gbuf[i]); P.gbuf[i] = NULL; }
   }
   if (e[0] == 's') { yr_scanner_set_flags(s->scanner[s->cur], flags); yr_scanner_set_timeout(s->scanner[s->cur], timeout); }
+  if (e[0] == 's' && nocb) yr_scanner_set_callback(s->scanner[s->cur], NULL, NULL);
   s->msg_index = 0;
   fprintf(o, "scan msgs=");
-  if (!strcmp(e, "rmem")) rc = yr_rules_scan_mem(cur_rules(s), b, len, flags, scan_cb, s, timeout);
-  else if (!strcmp(e, "rfile")) rc = yr_rules_scan_file(cur_rules(s), path, flags, scan_cb, s, timeout);
-  else if (!strcmp(e, "rfd")) rc = yr_rules_scan_fd(cur_rules(s), fd, flags, scan_cb, s, timeout);
-  else if (!strcmp(e, "rblocks")) rc = yr_rules_scan_mem_blocks(cur_rules(s), &P.it, flags, scan_cb, s, timeout);
+  if (!strcmp(e, "rmem")) rc = yr_rules_scan_mem(cur_rules(s), b, len, flags, cb, s, timeout);
+  else if (!strcmp(e, "rfile")) rc = yr_rules_scan_file(cur_rules(s), path, flags, cb, s, timeout);
+  else if (!strcmp(e, "rfd")) rc = yr_rules_scan_fd(cur_rules(s), fd, flags, cb, s, timeout);
+  else if (!strcmp(e, "rblocks")) rc = yr_rules_scan_mem_blocks(cur_rules(s), &P.it, flags, cb, s, timeout);
   else if (!strcmp(e, "smem")) rc = yr_scanner_scan_mem(s->scanner[s->cur], b, len);
   else if (!strcmp(e, "sfile")) rc = yr_scanner_scan_file(s->scanner[s->cur], path);
   else if (!strcmp(e, "sfd")) rc = yr_scanner_scan_fd(s->scanner[s->cur], fd);
   else if (!strcmp(e, "sblocks")) rc = yr_scanner_scan_mem_blocks(s->scanner[s->cur], &P.it);
   fprintf(o, " rc=%d\n", rc);
+  if (e[0] == 's' && nocb) yr_scanner_set_callback(s->scanner[s->cur], scan_cb, s);
   if (fd >= 0) { close(fd); unlink(path); }
   free(b);
 }
